@@ -414,6 +414,9 @@ class Check:
         replay.update({"property": self.pid, "what": what})
         if no_input:
             replay["no_failing_input_found"] = True
+            # name what no longer checks: the correspondence (or proof obligation) and the theorems that rest on it
+            replay.setdefault("theorem_file", f"coq/theories/props/{self.pid}.v")
+            replay.setdefault("correspondence_or_obligation", what[:300])
         json.dump(replay, open(path, "w"), indent=1, default=str)
         self.violations.append((what, path, no_input))
 
